@@ -101,7 +101,17 @@ CLAIMED['C18'] = dict(
         'Correspondence: real save_json/load_json over all numeric dtypes, layouts, ranks, 9/10/11-item arrays, nested values; write_tsv/read_tsv with both delimiters and hostile strings; two-column tables and parameter files (Python side only).',
    note='json, csv, base64, number formatting/parsing and the Python parser are transport hypotheses exercised through the real libraries; simple tables and params.py are compared on the Python side only.',
    tech='Lean 4 theorems (mutual structural recursion over a JSON-like value type; list-level TSV model) + differential correspondence against /repo', ref='§5 C18')
-REASONS = {}
+CLAIMED['C13'] = dict(
+   text='Theorems (decision logic stated outright): every object table written has the number of spikes / clusters / templates / channels of its family as first dimension, with or without label; the label is inserted before the extension of every such file and only there; one identifier row per cluster; conversion into the source directory is refused. '
+        'The round trip (times, samples, clusters, templates, channel map, positions of the returned AND a freshly loaded model equal the source), seconds-vs-samples, identifier uniqueness and byte-identity of the source (apart from temp_wh.dat and the subset files) are established by the correspondence run on real conversions of generated datasets (raw/no raw, features, curated, probe table, KSLabel, (n,1) vectors, labels, merged sources).',
+   note='PARTIAL: the Lean theorems are shallow (file table + naming); the load-back and frame clauses rest on the sampled correspondence; uuid4 uniqueness assumed.',
+   tech='Lean 4 theorems over a file-table model + differential correspondence (real convert + reload + directory hashes) against /repo', ref='§5 C13')
+CLAIMED['C14'] = dict(
+   text='Theorems: exporting raw channel indices of a dataset merged from ANY number of probes (permutation maps) gives back each probe\'s original channel map (composition with the C12 merge model); listed channels are distinct channels of the peak\'s probe in non-decreasing L1 distance, peak first, no unlisted same-probe channel strictly closer; exported waveform column j is the waveform on listed channel j; cluster depth = depth of the peak channel, NaN for ids without spikes. Amplitude / rescaling / duration / feature-depth formulas are the C09 theorems. '
+        'Correspondence: real conversions of single datasets (values of templates.*, clusters.*, spikes.amps/depths vs the exact C09/C14 models) and of datasets merged from 1..4 probes (raw indices, listed channels).',
+   note='Float32 outputs compared with relative tolerance 1e-6, multi-step float64 chains with 1e-9; on merged sources only the index bookkeeping is claimed (large token values are not exact in float32).',
+   tech='Lean 4 composition theorem (merge then export = identity on channel maps) + sort lemmas + differential correspondence against /repo', ref='§5 C14')
+REASONS = {'C04': 'check under construction (loader model); until it is committed the loader is exercised indirectly by C03, C05-C10, C13, C14'}
 
 checks = []
 for i in ids:
